@@ -8,7 +8,7 @@
    model on every run. *)
 From Coq Require Import QArith.
 From HS Require Import Prelude Cov Map Spec Ops Spec2 Params AtFold MapProofs UpdateProofs HistoryProofs
-     LayoutProofs AccountProofs OpsProofs RebuildProofs PartialProofs Exec Exec2 ExecProofs.
+     LayoutProofs AccountProofs OpsProofs RebuildProofs PartialProofs RdegRefine Exec Exec2 ExecProofs.
 Open Scope Z_scope.
 
 Section C19.
@@ -43,6 +43,19 @@ Proof.
   - rewrite Enp. exact Hq.
 Qed.
 
+(* the on-read routine as it is written — block by block over the requested covered coverage pixels in
+   ascending order, each block (and weight block) reduced and stored as the next block of an output indexed
+   by make_from_pixels of that list — returns THE SAME map, index and storage, as the in-memory degrade of
+   the partial read with the weight blocks laid out in the same order *)
+Theorem C19_on_read_routine_is_degrade_of_the_partial_read :
+  forall (red : list (V * W) -> W) (r : Z), 0 < r ->
+  forall (nb : W) (m m' : smap V) (wblk : Z -> list W) (wovf : list W) (req : list Z),
+    wf P m -> nfine m mod r = 0 -> read_partial V m req = Some m' ->
+    zlen wovf = nfine m -> (forall c, In c (selected P m req) -> zlen (wblk c) = nfine m) ->
+    rdeg P P' red r nb m wblk req =
+    Some (degrade2 V W red r nb m' (wovf ++ flat_map wblk (selected P m req))).
+Proof. exact (rdeg_is_degrade_of_partial_read P P'). Qed.
+
 End C19.
 
 Example C19_hypotheses_satisfiable :
@@ -60,4 +73,5 @@ Example C19_hypotheses_satisfiable :
 Proof. vm_compute. reflexivity. Qed.
 
 Print Assumptions C19_degrade_of_partial_read.
+Print Assumptions C19_on_read_routine_is_degrade_of_the_partial_read.
 Print Assumptions C19_hypotheses_satisfiable.
